@@ -77,8 +77,14 @@ fn route(req: &Json) -> Json {
         })
         .collect();
     let at: Option<u32> = if all_ok { norm.as_deref().and_then(|h| router.at(h).ok().map(|m| *m.value)) } else { None };
+    // What the code generator really emits for `domain_router()`: the same patterns, with the position of the guard
+    // in `BTreeMap` order as domain id.
+    let emitted = pavexc::verif::generated_domain_router_inserts(&guards);
+    let emitted_ok = emitted.len() == ordered.len()
+        && emitted.iter().zip(ordered.iter()).enumerate().all(|(i, ((p, id), (_, q)))| p == q && *id == i as u32);
     json!({
         "r": "route",
+        "emitted": emitted_ok,
         "verdicts": verdicts,
         "order": ordered.iter().map(|(g, _)| g.clone()).collect::<Vec<_>>(),
         "patterns": ordered.iter().map(|(_, p)| p.clone()).collect::<Vec<_>>(),
